@@ -155,12 +155,16 @@ func init() {
 					}
 					done := make(chan error, 1)
 					go func() { _, _, err := cl.ReadSlices(); done <- err }()
+					wait := 50 * time.Millisecond // long enough for a resend to reach the wire
+					if kind == "clientid" {
+						wait = 20 * time.Second // an immediate error is due: no verdict from a busy machine
+					}
 					select {
 					case err := <-done:
 						if kind == "clientid" && (err == nil || dialed != 0) {
 							e.violate("C15", "damaged-clientid-used", "damaged client identifier record: ReadSlices returned %v after %d dials", err, dialed)
 						}
-					case <-time.After(50 * time.Millisecond):
+					case <-time.After(wait):
 						if kind == "clientid" {
 							e.violate("C15", "damaged-clientid-used", "damaged client identifier record: connect went ahead")
 						}
